@@ -8,6 +8,14 @@ NOTE_COMMON = ("Trusted base: go/packages + go/types + go/ssa of golang.org/x/to
                "so a large refactoring can raise an alarm although behaviour is preserved.")
 
 claimed = {
+ "C11": dict(
+   text="Decides structural necessary conditions of the budget, limit and start-check clauses on the SSA form of the interpreter core: single-writer operation counter whose block every dispatch iteration passes; budget test equivalent to MaxOps>0 && NumOps>MaxOps returning the sentinel (decision table); MaxOps read nowhere else (non-interference); sentinel excluded from the error-handler dispatch (never past N+1); no path to a nested executeOne call avoids the execution-depth gate (path-sensitive CFG search); operand-stack, dict-stack, procedure-nesting and handler-nesting growth dominated by constant bounds; array/string/dict sizes bounded with limitcheck; the %! comparison dominates the token loop under CheckStart and the flag is cleared. Does not decide equality of the final state with an unbudgeted run nor exact counts.",
+   technique="static analysis: go/ssa dominance and who-may-write rules, decision-table extraction of comparison-only guards, path-sensitive CFG reachability with branch/type-switch facts",
+   ref="DESIGN.md §5 C11"),
+ "C18": dict(
+   text="Decides structural necessary conditions of isolation and race freedom: inventory of package-level variables; none assigned outside package initialisers; memory owned by package-level maps/slices/arrays never written through any alias and never escaping un-cloned into interfaces, instance state or exported results (interprocedural SSA value flow); shared struct types immutable after construction; every access to mutex-guarded fields under the lock (or all call sites hold it); maps published from the critical section complete before publication; no go/unsafe/atomic. Does not decide 'same results as sequential use'.",
+   technique="static analysis: SSA value-flow (escape/write) tracking of package-level storage, lockset by dominance, who-may-write",
+   ref="DESIGN.md §5 C18"),
  "C17": dict(
    text="Decides a structural necessary condition of determinism for all inputs: every range over a map in library code has an order-independent body or is guarded by len==1, every slice collected from a map is totally sorted before an order-dependent use, and no clock/random/pid/address source is called. Does not decide byte-equality of outputs as such.",
    technique="static analysis: AST+type-info classification of every map range and maps.Keys/Values use, SSA effect summaries of callees, positive/negative control package",
